@@ -5,7 +5,7 @@
    parent, value), the value being the order carried by the bond token, or `4 if both aromatic else 1` when nothing / a direction
    mark is written.  With flatten_ser and C03's read_spell_denote this is a statement about Parser.parse on the reader tokens of
    the token list of ANY traversal: positions are positions in the written atom order, edges are the TBond entries. *)
-From Coq Require Import ZArith List Bool Lia.
+From Coq Require Import ZArith List Bool Lia Ascii.
 From Model Require Import PyBase Graph Writer Tokenize Parser SmilesAst.
 From Proofs Require Import WriterWfFlatten WriterWfTree WriterWfFlatten2 WriterSeqFlatten WriterSeqTree DenoteProofs ParserProofs TokenizeProofs.
 Import ListNotations.
@@ -347,8 +347,8 @@ Section Whole.
         rewrite spell_kids_front by (destruct kf; [exact Hr | discriminate]).
         rewrite (Sf rest Hr). rewrite erase_node, spell_node, Sc. unfold WriterSeqTree.ctoks. cbn [flat_map ctok]. rewrite !flat_map_app. cbn [flat_map ctok app].
         rewrite ?app_nil_r. rewrite <- ?app_assoc. cbn [app]. rewrite <- ?app_assoc. cbn [app]. reflexivity.
-      + rewrite !atoms_of_app. unfold tc. cbn [atoms_of app flat_map ipre]. rewrite !atoms_of_app. cbn [atoms_of]. rewrite Af, Ac, app_nil_r. reflexivity.
-      + rewrite !pairs_of_app. unfold epairs. unfold tc. cbn [pairs_of app flat_map ipairs iroot]. rewrite !pairs_of_app. cbn [pairs_of].
+      + rewrite !atoms_of_app. unfold tc. cbn [atoms_of app flat_map ipre]. rewrite ?atoms_of_app. cbn [atoms_of app]. rewrite Af, Ac, app_nil_r. reflexivity.
+      + rewrite !pairs_of_app. unfold epairs. unfold tc. cbn [pairs_of app flat_map ipairs iroot]. rewrite ?pairs_of_app. cbn [pairs_of app].
         fold (epairs n kf). fold (epairs c kc). rewrite Pf, Pc, app_nil_r. reflexivity.
   Qed.
 End Whole.
@@ -400,7 +400,7 @@ Qed.
 (* non-vacuity: C(=O)(N)c - a tree with a double bond, an unmarked single bond and an unmarked bond to an aromatic atom *)
 Example tree_bonds_example :
   let aty := fun n => if n =? 4 then 8 else 0 in
-  let atk := fun n : Z => mkAt "C" None None 0 None None in
+  let atk := fun n : Z => simple_atom (String.String "C"%char String.EmptyString) in
   let rings := fun _ : Z => @nil (option token * Z) in
   let bnd := fun p c : Z => if c =? 2 then Some (1, PInt 2) else None in
   let it := INode 1 [INode 2 []; INode 3 []; INode 4 []] in
